@@ -27,7 +27,11 @@ TrHs ==
          o   == [ok |-> Ev.ok, cmd |-> Ev.cmd, host |-> Ev.host, ip |-> Ev.ip, port |-> Ev.port,
                  wrote |-> Ev.wrote, consumed |-> Ev.consumed, panic |-> Ev.panic]
          d   == Ev.target \o ":" \o Ev.chunk \o ":" \o cls \o ":got=" \o Got
-         form == IF r.result /\ Ev.ok /\ r.q.atyp \in {1, 4} /\ ~Ev.hpok THEN {"AddrForm"} ELSE {}
+         \* a result handed on as one "host:port" string must be one that net.SplitHostPort takes apart again
+         \* (names containing '[' or ']' have no such form and are not demanded)
+         form == IF r.result /\ Ev.ok /\ Profile(Ev.target).joined /\ ~Ev.hpok
+                    /\ (r.q.atyp \in {1, 4} \/ (~Contains(r.q.addr, 91) /\ ~Contains(r.q.addr, 93)))
+                 THEN {"AddrForm"} ELSE {}
      IN /\ Assert(Ev.want = "" \/ Ev.want = cls, <<"model and reference disagree on case class", Ev.want, cls, Ev.tr>>)
         /\ viol' = viol \cup {V(cl, d) : cl \in HsViol(r, o) \cup form}
   /\ l' = l + 1
@@ -48,31 +52,43 @@ TrUdp ==
 \* `fwd` = every (destination, payload) the relay handed to a tunnel; `resps` = responses injected per
 \* tunnel, `replies` = the datagrams the application then received.  Every datagram the reference parses
 \* must have been forwarded exactly once as (its destination, its payload) and nothing else may have been;
-\* UDP promises no order, none is demanded.
+\* UDP promises no order, none is demanded.  `dns` = the queries a datagram for port 53 was turned into when a
+\* control-channel DNS handler is installed (hdl); a datagram is handed on either way exactly once.
 TrRelay ==
   /\ Is("Relay")
   /\ LET S == Ev.sent
          F == Ev.fwd
+         D == Ev.dns                      \* queries handed to the DNS handler (only when one is installed)
+         E == Ev.resps
+         G == Ev.replies
          U == [i \in DOMAIN S |-> RefUdp(S[i])]
-         cnt(i) == Cardinality({j \in DOMAIN F : ForwardIs(U[i], S[i], F[j])})
+         tun(i) == {j \in DOMAIN F : ForwardIs(U[i], S[i], F[j])}
+         qry(i) == {q \in DOMAIN D : QueryOf(U[i], S[i], D[q])}
+         cnt(i) == Cardinality(tun(i)) + Cardinality(qry(i))
          pre(i) == "relay:" \o Ev.shape \o ":i=" \o ToString(i) \o ":" \o UdpClass(U[i], S[i])
          lost == {V("UdpRelayPayload", pre(i)) : i \in {x \in DOMAIN S : U[x].st = "result" /\ ~U[x].lenient /\ cnt(x) = 0}}
          dup  == {V("UdpRelayDup", pre(i)) : i \in {x \in DOMAIN S : cnt(x) > 1}}
+         srv  == {V("UdpRelayDnsServer", pre(i)) : i \in {x \in DOMAIN S : \E q \in qry(x) : ~ServerOK(U[x], Ev.vdns, D[q])}}
          spur == {V("UdpRelaySpurious", "relay:" \o Ev.shape \o ":fwd=" \o ToString(j) \o
                       (IF \E i \in DOMAIN S : DestIs(U[i], F[j]) THEN ":payload-of-no-datagram" ELSE ":destination-of-no-datagram"))
                     : j \in {y \in DOMAIN F : \A i \in DOMAIN S : ~ForwardIs(U[i], S[i], F[y])}}
-         E == Ev.resps
-         G == Ev.replies
+              \cup {V("UdpRelaySpurious", "relay:" \o Ev.shape \o ":dns=" \o ToString(q) \o ":query-of-no-datagram")
+                    : q \in {y \in DOMAIN D : \A i \in DOMAIN S : ~QueryOf(U[i], S[i], D[y])}}
+         \* replies: one per injected tunnel response, one per answered DNS query, headed by the re-encoded header
          rcnt(k) == Cardinality({j \in DOMAIN G : ReplyIs(G[j], E[k])})
+         dcnt(i, q) == Cardinality({j \in DOMAIN G : ReplyTo(G[j], U[i], D[q].resp)})
+         owned(j) == \/ \E k \in DOMAIN E : ReplyIs(G[j], E[k])
+                     \/ \E i \in DOMAIN S : \E q \in qry(i) : ReplyTo(G[j], U[i], D[q].resp)
          rep  == {V("UdpRelayReply", "relay:" \o Ev.shape \o ":resp=" \o ToString(k) \o ":matching-replies=" \o ToString(rcnt(k)))
                     : k \in {x \in DOMAIN E : rcnt(x) # 1}}
+              \cup {V("UdpRelayReply", pre(i) \o ":dns-reply:matching-replies=" \o ToString(dcnt(i, q)))
+                    : <<i, q>> \in {y \in (DOMAIN S) \X (DOMAIN D) : y[2] \in qry(y[1]) /\ dcnt(y[1], y[2]) # 1}}
               \cup {V("UdpRelayReply", "relay:" \o Ev.shape \o ":reply=" \o ToString(j) \o ":of-no-response")
-                    : j \in {y \in DOMAIN G : \A k \in DOMAIN E : ~ReplyIs(G[y], E[k])}}
+                    : j \in {y \in DOMAIN G : ~owned(y)}}
      IN /\ Assert(\A i, k \in DOMAIN S : (i # k /\ U[i].st = "result" /\ U[k].st = "result") =>
-                      ~(U[i].atyp = U[k].atyp /\ U[i].addr = U[k].addr /\ U[i].port = U[k].port
-                        /\ Rest(S[i], U[i].pay) = Rest(S[k], U[k].pay)),
-                  <<"driver sent two indistinguishable datagrams", Ev.tr>>)
-        /\ viol' = viol \cup lost \cup dup \cup spur \cup rep
+                      Rest(S[i], U[i].pay) # Rest(S[k], U[k].pay),
+                  <<"driver sent two datagrams with the same payload", Ev.tr>>)
+        /\ viol' = viol \cup lost \cup dup \cup srv \cup spur \cup rep
                         \cup (IF Ev.panic THEN {V("Panic", "relay:" \o Ev.shape)} ELSE {})
   /\ l' = l + 1
 
